@@ -172,3 +172,23 @@ pub fn e2_case(b: &E2Bias) -> BoxedStrategy<E2Case> {
         .prop_map(|(cfg, epochs, validate)| E2Case { cfg, epochs, validate })
         .boxed()
 }
+
+// ---------------------------------------------------------------------------------------------
+// fault cases (C14)
+
+use crate::fault::FaultCase;
+
+pub fn fault_case() -> BoxedStrategy<FaultCase> {
+    let keys = 4u8;
+    let small = prop_oneof![6 => (0u8..3).prop_map(C::P), 2 => (0u8..3).prop_map(|b| C::R(vec![b; 3])), 1 => (3u8..8).prop_map(C::P)];
+    let op = prop_oneof![
+        10 => (0..keys, small, cuts()).prop_map(|(k, c, cuts)| Step::Put { k, c, cuts }),
+        4 => (0..keys).prop_map(|k| Step::Remove { k }),
+        2 => (bound(keys), bound(keys)).prop_map(|(lo, hi)| Step::RemoveRange { lo, hi }),
+        1 => Just(Step::Checkpoint),
+        3 => (0..keys).prop_map(|k| Step::GetRange { k, s: 0, e: 0 }),
+    ];
+    let cfg = (proptest::sample::select(vec!["String".to_string(), "U64".to_string(), "VecU8".to_string()]), prop_oneof![Just(1u64), Just(2), Just(3), Just(100)], any::<bool>(), any::<bool>(), any::<bool>())
+        .prop_map(|(kt, n, asyn, scan, verify)| Cfg { kt, n, asyn, scan, verify });
+    (cfg, vec(op, 4..=12), prop::bool::weighted(0.3)).prop_map(|(cfg, ops, enospc)| FaultCase { cfg, ops, enospc, only_k: None }).boxed()
+}
